@@ -451,6 +451,8 @@ def compare_read(ctx, spec, got, wraps, model=None, with_bonds=False, fields=())
     at = spec["atoms"]
     n, m = len(at), len(spec["coord"])
     ctx.oracle("roundtrip_fields")
+    if not with_bonds and got.bonds is not None:
+        ctx.fail("roundtrip_fields", "a BondList was attached although bonds were not requested (include_bonds defaults to False)")
     if model is None:
         if not isinstance(got, struc.AtomArrayStack) or got.stack_depth() != m or got.array_length() != n:
             ctx.fail("roundtrip_fields", "read %s depth/length %s, written %d models x %d atoms"
@@ -560,10 +562,11 @@ def execute(ctx, spec):
     with warnings.catch_warnings(record=True) as wlist:
         warnings.simplefilter("always")
         try:
+            kw_w = {} if (not hy and ctx.index % 2 == 0) else {"hybrid36": hy}      # the documented default is hybrid36=False
             if spec.get("via") == "convert":
-                pdb.set_structure(f, arr, hybrid36=hy)
+                pdb.set_structure(f, arr, **kw_w)
             else:
-                f.set_structure(arr, hybrid36=hy)
+                f.set_structure(arr, **kw_w)
         except REFUSALS as e:
             raised = e
     # writing must not change the caller's structure (it may be written again, e.g. with hybrid36=True)
@@ -638,6 +641,9 @@ def execute(ctx, spec):
 
     def read(src, **kw):
         ctx.op("get_structure:" + ",".join("%s" % k for k in sorted(kw) if kw[k] not in (None, False, [])))
+        if ctx.index % 2 == 0:
+            # keyword arguments that equal the documented defaults are left out (model=None, extra_fields=[], include_bonds=False)
+            kw = {a: v for a, v in kw.items() if not ((a == "include_bonds" and v is False) or (a == "extra_fields" and v == []) or (a == "model" and v is None))}
         try:
             if spec.get("via") == "convert":
                 return pdb.get_structure(src, **kw)
@@ -661,10 +667,17 @@ def execute(ctx, spec):
     gc = g.get_coord()
     if gc.shape != (m, n, 3) or not np.array_equal(gc, st.coord):
         ctx.fail("roundtrip_coord", "get_coord() differs from get_structure().coord")
+    ctx.op("get_coord(model)")
+    gck = g.get_coord(model=k)
+    if gck.shape != (n, 3) or not np.array_equal(gck, one.coord):
+        ctx.fail("roundtrip_coord", "get_coord(model=%d) differs from get_structure(model=%d).coord" % (k, k))
     if "b_factor" in fields:
         gb = g.get_b_factor(model=1)
         if gb.shape != (n,) or not np.allclose(gb, st.b_factor, atol=1e-4):
             ctx.fail("roundtrip_fields", "get_b_factor(model=1) differs from the b_factor annotation")
+        gba = g.get_b_factor()
+        if gba.shape != (m, n) or not np.allclose(gba[0], st.b_factor, atol=1e-4):
+            ctx.fail("roundtrip_fields", "get_b_factor() is not the (models, atoms) table of the written B-factors")
     return "written"
 
 
